@@ -45,6 +45,11 @@ pub enum Prover {
     Installed(u16),
     NeverInstalled,
     LatestSigningOtherCandidate,
+    /// the latest set, but only its last signers sign: the largest suffix whose combined weight stays below the
+    /// threshold (the signers not signing are listed unsigned, heavier ones first if the weights say so)
+    LatestSubThresholdSuffix,
+    /// the latest set, the smallest suffix of signers whose combined weight reaches the threshold
+    LatestSufficientSuffix,
 }
 
 #[derive(Clone, Debug, Serialize, Deserialize, PartialEq, Eq)]
@@ -95,6 +100,8 @@ fn prover() -> impl Strategy<Value = Prover> {
         3 => any::<u16>().prop_map(Prover::Installed),
         1 => Just(Prover::NeverInstalled),
         1 => Just(Prover::LatestSigningOtherCandidate),
+        2 => Just(Prover::LatestSubThresholdSuffix),
+        2 => Just(Prover::LatestSufficientSuffix),
     ]
 }
 
@@ -395,6 +402,7 @@ impl Property for C03 {
                         Prover::Installed(i) => (installed[installed.len() - 1 - pick(i, installed.len())].clone(), true),
                         Prover::NeverInstalled => (SetGen { seeds: vec![950, 951], w: vec![WClass::One; 2], t: TClass::Total }.build(250), true),
                         Prover::LatestSigningOtherCandidate => (latest.clone(), false),
+                        Prover::LatestSubThresholdSuffix | Prover::LatestSufficientSuffix => (latest.clone(), true),
                     };
                     let ph = prover.hash();
                     if !model.is_latest(&ph) {
@@ -411,9 +419,29 @@ impl Property for C03 {
                         other.rotation_data_hash()
                     };
                     let dg = digest(&gw.domain, &ph, &data_hash);
-                    let proof = prover.proof(&env, &dg, prover.full_mask());
+                    // which signers sign
+                    let n = prover.pks.len();
+                    let suffix_mask = |k: usize| -> u32 { (0..n).filter(|i| *i >= n - k).fold(0u32, |m, i| m | (1 << i)) };
+                    let (mask, weight_ok) = match a.prover {
+                        Prover::LatestSubThresholdSuffix => {
+                            let k = (0..=n).rev().find(|k| prover.mask_weight(suffix_mask(*k)).map(|w| w < prover.threshold).unwrap_or(false)).unwrap_or(0);
+                            cx.label("proof_signed_by_a_suffix_below_threshold");
+                            nontrivial = true;
+                            (suffix_mask(k), false)
+                        }
+                        Prover::LatestSufficientSuffix => {
+                            let k = (0..=n).find(|k| prover.mask_weight(suffix_mask(*k)).map(|w| w >= prover.threshold).unwrap_or(false)).unwrap_or(n);
+                            if k < n {
+                                cx.label("proof_signed_by_a_sufficient_proper_suffix");
+                                nontrivial = true;
+                            }
+                            (suffix_mask(k), true)
+                        }
+                        _ => (prover.full_mask(), true),
+                    };
+                    let proof = prover.proof(&env, &dg, mask);
 
-                    let proof_ok = signs_this && model.live(&ph) && (model.is_latest(&ph) || a.bypass);
+                    let proof_ok = signs_this && weight_ok && model.live(&ph) && (model.is_latest(&ph) || a.bypass);
                     let auth_ok = !a.bypass || a.operator_auth;
                     let fresh = !model.by_hash.contains_key(&cand_hash);
                     let expect = if !cand.well_formed() || !fresh || !proof_ok || !auth_ok {
